@@ -354,6 +354,10 @@ void parse_opml_token_chain(mmd_engine * e, token * chain) {
 	// Clean up token chain
 	token_tree_free(chain);
 
+	// The root token was part of that chain -- it only served as the sign
+	// that the parse succeeded
+	e->root = NULL;
+
 	OPMLFree(pParser, free);
 }
 
